@@ -32,6 +32,17 @@ def site_of(exc) -> str:
     return name or "?"
 
 
+JUNK = b"STALE-OUTPUT-OF-AN-EARLIER-RUN " * 4096       # 128 KiB: longer than anything the checks produce there
+
+
+def prefill(path):
+    """the output path already exists and holds longer content (a command must replace, not overwrite in place)."""
+    os.makedirs(os.path.dirname(path) or ".", exist_ok=True)
+    with open(path, "wb") as fh:
+        fh.write(JUNK)
+    return path
+
+
 def tool_create(desc) -> bytes:
     """Library path of create: from_obj + digest refresh + to_cbor (what InputOutputMixin.prepare_suit_data does)."""
     from suit_generator.input_output import InputOutputMixin
@@ -54,8 +65,7 @@ def tool_create_main(desc, d, fmt="json") -> bytes:
     inp = os.path.join(d, f"in.{fmt}")
     out = os.path.join(d, "out.suit")
     dump_desc(desc, inp, fmt)
-    if os.path.exists(out):
-        os.unlink(out)
+    prefill(out)
     cmd_create.main(input_file=inp, input_format="AUTO", output_file=out)
     with open(out, "rb") as fh:
         return fh.read()
@@ -73,8 +83,7 @@ def tool_parse_main(data: bytes, d, fmt="yaml", hierarchy=False):
     out = os.path.join(d, f"p_out.{fmt}")
     with open(inp, "wb") as fh:
         fh.write(data)
-    if os.path.exists(out):
-        os.unlink(out)
+    prefill(out)
     cmd_parse.main(input_file=inp, output_file=out, output_format="AUTO", parse_hierarchy=hierarchy)
     return out
 
